@@ -117,7 +117,7 @@ def build_program(rows, seed, structured):
         marker = "P%d" % i
         L = lambda: gen.lay(f["lay"], rnd, "\n", indent="        ")
         macro = f["level"] if f["path"] == "bare" else "log::" + f["level"]
-        bang = f.get("bang", "tight")
+        bang = f.get("bang", "tight") if core.SPACED_BANG else "tight"
         parts = [macro, {"sp": " ", "nl": "\n        ", "cm": " /* lvl */ "}.get(bang, ""), "!", " " if bang == "sp_after" else "", "(", L()]
         if f["target"] != "none":
             if f["target"].startswith("expr_"):
@@ -206,6 +206,8 @@ def run_program(built, rows, seed, structured, perturb=None):
     perturb: None | "short-all" (every write(2) transfers part of what was asked: must be absorbed) | ("partial", fraction)
     (one write to the scratch file stores a prefix, the write of the remainder fails with ENOSPC, later operations succeed)"""
     src, meta = build_program(rows, seed, structured)
+    if core.rng_for("c09eol", seed).random() < 0.25:
+        src = src.replace("\n", "\r\n")          # a program saved with CRLF line ends (rustc does not mind)
     with core.Box(tag="c09") as box:
         box.write("src/main.rs", src)
         cfgtext = core.make_config(structured=True if structured else None, use_cache=False, macros=C09_MACROS)
@@ -215,7 +217,7 @@ def run_program(built, rows, seed, structured, perturb=None):
             return {"gen_error": err0, "meta": meta, "src": src}
         rules = None
         if perturb == "short-all":
-            rules = "kind=write,act=short"
+            rules = "kind=write,act=short;kind=read,act=short"
         elif perturb:
             from .. import fault
             with core.Box(tag="c09d") as dry:
@@ -226,7 +228,7 @@ def run_program(built, rows, seed, structured, perturb=None):
             if ws:
                 k = ws[min(len(ws) - 1, int(perturb[1] * len(ws)))]
                 rules = "n=%d,act=short;n=%d,act=errno:28" % (k, k + 1)
-        ed = core.run_breadlog(built, box, cfg, rules=rules, shim=bool(rules))
+        ed = core.run_breadlog(built, box, cfg, rules=rules, shim=bool(rules), read_ops=(perturb == "short-all"))
         after_src = box.read("src/main.rs").decode("utf-8", "replace")
         after, err1 = compile_run(os.path.join(box.proj, "src/main.rs"), os.path.join(box.root, "after.bin"))
     return {"before": before, "after": after, "err": err1, "meta": meta, "edit": ed, "src": src, "after_src": after_src}
